@@ -80,6 +80,19 @@ def run(res, proof):
                         o2 = step(hl, ho, 'mk.macro\t0\t%s\t%s' % (nm, hs(p)))
                         if o2 != 'ret h8 old':
                             res.violation('macro:permutation-not-identified', {'history': list(hl)}, o2, 'ret h8 old')
+                    # the argument's container type is irrelevant: tuples (in any order) denote the same object
+                    K = type(m)
+                    for p in (perms if k <= 3 else rng.sample(perms, 3)):
+                        try:
+                            via = K(tuple(iw.held[x] for x in p), name=(None if nm == '-' else nm))
+                        except Exception as e:
+                            via = 'raised ' + type(e).__name__; e = None
+                        if via is not m:
+                            res.violation('macro:tuple-argument-not-identified', {'history': list(hl), 'call': 'MacrostateS(tuple of members in order %s)' % hs(p)},
+                                          repr(via), 'the same object')
+                            break
+                        del via
+                    del K
                     # a different member set denotes a different object
                     others = [c for c in CX if c not in sub]
                     if others:
@@ -97,7 +110,8 @@ def run(res, proof):
         pperms = list(set(itertools.permutations(p)))
         r0, p0 = rng.choice(rperms), rng.choice(pperms)
         hl, ho = start()
-        o = step(hl, ho, 'mk.rxn\t0\t-\t%s\t%s\t%s' % (t, hs(r0), hs(p0)))
+        rname = rng.choice(['-', '-', 'R'])          # automatically named, or named by the caller
+        o = step(hl, ho, 'mk.rxn\t0\t%s\t%s\t%s\t%s' % (rname, t, hs(r0), hs(p0)))
         res.evaluations += 1
         res.nontriv(('rxn', tuple(r), tuple(p), t))
         if not o.startswith('ret h8 new'):
@@ -106,14 +120,14 @@ def run(res, proof):
         x = iw.held[8]
         rs = sorted([iw.held[i] for i in r], key=lambda c: c.canonical_form)
         ps = sorted([iw.held[i] for i in p], key=lambda c: c.canonical_form)
-        want_name = '[%s] %s -> %s' % (t, ' + '.join(c.name for c in rs), ' + '.join(c.name for c in ps))
+        want_name = ('[%s] %s -> %s' % (t, ' + '.join(c.name for c in rs), ' + '.join(c.name for c in ps))) if rname == '-' else rname
         ok = (x.name == want_name and x.arity == (len(r), len(p)) and [id(c) for c in x.reactants] == [id(c) for c in rs]
               and [id(c) for c in x.products] == [id(c) for c in ps] and x.rtype == t)
         if not ok:
             res.violation('reaction:attributes', {'history': list(hl)}, repr((x.name, x.arity)), want_name)
         for rp in rperms:
             for pp in pperms:
-                o2 = step(hl, ho, 'mk.rxn\t0\t-\t%s\t%s\t%s' % (t, hs(rp), hs(pp)))
+                o2 = step(hl, ho, 'mk.rxn\t0\t%s\t%s\t%s\t%s' % (rname, t, hs(rp), hs(pp)))
                 if o2 != 'ret h8 old':
                     res.violation('reaction:permutation-not-identified', {'history': list(hl)}, o2, 'ret h8 old')
         # changing the type, a multiplicity or a member denotes a different object
